@@ -417,6 +417,139 @@ def run_sites(ck):
                      no_input=True)
 
 
+def run_wsites(ck):
+    """write side: translator-generated census of the statements of writer/ and ctrl/, judged inside Coq"""
+    gen = os.path.join(VERIF, "translate", "gen_wsqlsites")
+    rc, out = vcheck.sh([gen], timeout=900, env=vcheck.go_env())
+    ck.checker_cmds.append("translate/gen_wsqlsites")
+    ck.log(out.strip()[-300:])
+    if not ck.obligation("translator gen_wsqlsites regenerated coq/gen/GenC10WSites.v from the source (writer/, ctrl/)", rc == 0, out[-1500:]):
+        return
+    ok, out = ck.coq_make(["gen/GenC10WSites.vo"])
+    if not ck.obligation("gen/GenC10WSites.v compiles", ok, out[-1500:]):
+        return
+    txt = ("From Coq Require Import List String ZArith.\nFrom Qryn Require Import model.WSites gen.GenC10WSites.\n"
+           "Definition U := Eval vm_compute in unsafe_wsites gen_writer_sites gen_writer_entry.\nPrint U.\n"
+           "Definition E := Eval vm_compute in filter (fun d => negb (existsb (String.eqb d) reviewed_writer_entry)) gen_writer_entry.\nPrint E.\n")
+    rc, out = ck.coq_eval("C10_wsites", txt)
+    flat = " ".join(out.split())
+    m = re.search(r"U = (.*?) : list \(string \* Z\)", flat)
+    me = re.search(r"E = (.*?) : list string", flat)
+    if rc != 0 or not m or not me:
+        ck.obligation("writer/ctrl statement census evaluated inside Coq", False, out[-1500:])
+        return
+    bad = re.findall(r'\("([^"]+)", (\d+)(?:%Z)?\)', m.group(1))
+    newentry = re.findall(r'"([^"]+)"', me.group(1))
+    meta = json.load(open(os.path.join(VERIF, "coq", "gen", "GenC10WSites.json")))
+    sites = meta["sites"]
+    cls = {}
+    for s in sites:
+        for p in s["pieces"]:
+            cls[p["k"]] = cls.get(p["k"], 0) + 1
+    nstmt = sum(1 for s in sites if s["kind"] in ("statement", "ch-go query body"))
+    ck.extra["writer_sql_sites"] = {"statements": nstmt, "call_sites_of_pass_through_functions": len(sites) - nstmt, "part_classes": cls,
+                                    "analyser": meta["stats"]}
+    detail = ""
+    if bad:
+        rows = []
+        for f, ln in bad[:5]:
+            st = [s for s in sites if s["file"] == f and str(s["line"]) == ln]
+            rows.append("%s:%s %s" % (f, ln, json.dumps([p for x in st for p in x["pieces"] if p["k"] in ("WUnclassified", "WPass")])[:600]))
+        detail = "; ".join(rows)
+    ck.obligation("no request string reaches a writer/ctrl statement: every part of the %d statements and %d pass-through call sites is constant, embedded script, configuration, numeric or a closed pass-through parameter"
+                  % (nstmt, len(sites) - nstmt), not bad, detail)
+    ck.obligation("pass-through functions without a caller in the module are the reviewed entry points", not newentry, "; ".join(newentry))
+    if bad:
+        f, ln = bad[0]
+        st = [s for s in sites if s["file"] == f and str(s["line"]) == ln]
+        ck.violation({"property": "C10", "kind": "a statement of writer/ or ctrl/ is built from something of unknown provenance (not constant, embedded script, configuration, "
+                      "number or a pass-through parameter whose call sites are classified)",
+                      "site": st[0] if st else {"file": f, "line": ln}, "all_unsafe_sites": bad,
+                      "explanation": "model/WSites.v wsite_ok rejects this site of coq/gen/GenC10WSites.v (theorem no_request_string_reaches_a_writer_statement no longer holds)"},
+                     no_input=True)
+
+
+BLOCK_START = re.compile(r"^(Theorem|Corollary|Example|Lemma)\s+([A-Za-z_][\w']*)")
+
+
+def props_blocks(lines):
+    """[(kind, name, first line index, last line index)] of the Theorem/Example blocks of a props file (a Theorem block includes its
+    Print Assumptions line)"""
+    out, i = [], 0
+    while i < len(lines):
+        m = BLOCK_START.match(lines[i])
+        if not m:
+            i += 1
+            continue
+        j = i
+        while j < len(lines) and not lines[j].rstrip().endswith("Qed."):
+            j += 1
+        if j + 1 < len(lines) and lines[j + 1].startswith("Print Assumptions"):
+            j += 1
+        out.append((m.group(1), m.group(2), i, min(j, len(lines) - 1)))
+        i = j + 1
+    return out
+
+
+def coq_props_per_theorem(ck):
+    """As ck.coq_props(), but a theorem that no longer compiles (the regenerated census / tables changed) fails ITS obligation only:
+    the props file is compiled in a scratch directory with the failing block blanked out, again and again, until the rest
+    compiles; the remaining theorems are reported with their Print Assumptions verdicts."""
+    ok, out = ck.coq_make(["props/C10.vo"])
+    if ok:
+        return ck.coq_props()
+    rel = os.path.join(vcheck.COQ, "props", "C10.v")
+    lines = open(rel).read().split("\n")
+    blocks = props_blocks(lines)
+    thms = [b[1] for b in blocks if b[0] in ("Theorem", "Corollary")]
+    ck.theorems = thms
+    bad = vcheck.scan_forbidden()
+    ck.obligation("no Admitted/Axiom/Parameter/guard-off anywhere in coq/", not bad, "; ".join(bad))
+    d = os.path.join(ck.work, "props_split")
+    os.makedirs(d, exist_ok=True)
+    failed = {}
+    pout = ""
+    for _ in range(len(blocks) + 1):
+        open(os.path.join(d, "C10split.v"), "w").write("\n".join(lines))
+        rc, pout = vcheck.sh(["coqc", "-R", vcheck.COQ, "Qryn", "-Q", ".", "", "-w", vcheck.COQ_WARN, "C10split.v"], cwd=d, timeout=900)
+        if rc == 0:
+            break
+        m = re.search(r'File "\./C10split\.v", line (\d+)', pout)
+        blk = None
+        if m:
+            ln = int(m.group(1)) - 1
+            blk = next((b for b in blocks if b[2] <= ln <= b[3] and b[1] not in failed), None)
+        if blk is None:
+            # an import or a definition outside every block fails: nothing can be said per theorem
+            for t in thms:
+                ck.obligation("theorem " + t, False, "props file does not compile: %s" % pout[-600:])
+            ck.build_log = out
+            return False
+        failed[blk[1]] = pout[pout.find("Error"):][:600] if "Error" in pout else pout[-600:]
+        for k in range(blk[2], blk[3] + 1):
+            lines[k] = ""
+    else:
+        for t in thms:
+            ck.obligation("theorem " + t, False, "props file does not compile: %s" % pout[-600:])
+        return False
+    ck.checker_cmds.append("coqc props/C10.v with the failing blocks blanked out (per-theorem verdicts)")
+    verdicts = vcheck.parse_assumptions(pout)
+    rest = [t for t in thms if t not in failed]
+    for t in thms:
+        if t in failed:
+            ck.obligation("theorem " + t, False, "no longer compiles: " + failed[t])
+    if len(verdicts) < len(rest):
+        for t in rest:
+            ck.obligation("theorem " + t, False, "lacks Print Assumptions (%d/%d)" % (len(verdicts), len(rest)))
+        return False
+    for t, (kind, ax) in zip(rest, verdicts):
+        extra_ax = [a for a in ax if a not in vcheck.ALLOWED_AXIOMS and a.split(".")[-1] not in vcheck.ALLOWED_AXIOMS]
+        ck.obligation("theorem " + t, not extra_ax, "closed under the global context" if kind == "closed" else "axioms: " + ", ".join(ax))
+    ex = [n for n in failed if n not in thms]
+    ck.obligation("the Examples of props/C10.v hold", not ex, "; ".join("%s: %s" % (n, failed[n][:200]) for n in ex))
+    return False
+
+
 def run_replay(ck):
     """bin/check C10 --replay <file>: re-run the (site, value) of a replay file against the current tree"""
     o = json.load(open(ck.replay))
@@ -463,8 +596,11 @@ def run(ck):
         "C10: the provenance rules of translate/sqlsites_src (reviewed selector table, sink constructors, two excluded functions; go/types for numeric verbs) decide the class of each formatted argument; everything outside them is KUnclassified",
         "C10: the renderer theorems are about model/SqlRender.v and model/LogqlPlan.v, whose byte-exact tie to reader/utils/sql_select and clickhouse_planner is checked by C07/C08 (and re-checked here on the hostile requests: flat(pieces) = real SQL)",
         "C10: strings.NewReplacer with one-byte search strings is a single-pass per-byte map; strings.Replace(s, old, new, -1) is leftmost non-overlapping replacement",
+        "C10: the provenance rules of translate/wsqlsites_src (write side): sinks are recognised by method name + a string parameter (go/types) and ch-go Query bodies; a field of a struct declared in a package whose path contains 'config' is configuration; variables/fields are the join of the assignments the analyser sees (objects named by declaration, module-wide; fields filled by reflection/unmarshalling have no assignment and are unclassified unless also assigned explicitly); interface method calls are matched by name and arity",
+        "C10: the TraceQL tree-level tie reads the SQL object trees dumped by C11's harness traceql (reflection over the real objects); its translation of raw fragments to model/TqSql.v is validated by flat(tq_pieces tree) = SQL on every tree",
     ]
     known = ck.known_findings()
     run_sites(ck)
-    ck.coq_props()
+    run_wsites(ck)
+    coq_props_per_theorem(ck)
     run_correspondence(ck, known)
